@@ -20,9 +20,10 @@ import (
 )
 
 type Case struct {
-	Unit  string   // written unit
-	Bits  []uint64 // float64 bit patterns of the values (1 or 2 results with the same unit)
-	Other string   // a second, unrelated unit on the same line ("" = none)
+	Unit    string   // written unit
+	Bits    []uint64 // float64 bit patterns of the values (1 or 2 results with the same unit)
+	Other   string   // a second, unrelated unit on the same line ("" = none)
+	DupMeta bool     // the unit metadata is declared a second time under the base unit's name
 }
 
 func hasSpace(s string) bool {
@@ -116,6 +117,12 @@ func Check(c Case) (v vcase.Verdict) {
 		sb.WriteString("\n")
 	}
 	sb.WriteString("Unit " + unit + " assume=exact better=higher\n")
+	if c.DupMeta && base != unit {
+		// the same metadata again under the other spelling of the unit: one metric, already
+		// known, so neither a new record nor a conflict
+		sb.WriteString("Unit " + base + " better=higher assume=exact\n")
+		v.Label("metadata_repeated_under_base_unit")
+	}
 	r := benchfmt.NewReader(strings.NewReader(sb.String()), "f")
 	var results []*benchfmt.Result
 	nmeta := 0
@@ -304,6 +311,7 @@ func Gen(t *rapid.T) Case {
 	for i := 0; i < nb; i++ {
 		c.Bits = append(c.Bits, genBits(t))
 	}
+	c.DupMeta = rapid.Bool().Draw(t, "dupmeta")
 	if rapid.Bool().Draw(t, "other") {
 		c.Other = genUnit(t, false)
 		ob, _, _ := refbench.TidyUnit(c.Other)
